@@ -129,7 +129,7 @@ def one_case(job):
 def compile_thrice(job):
     path, scratch = job
     outs = []
-    for k in range(3):
+    for k in range(5):
         try:
             r = subprocess.run([common.rt_bin(), "compile", path], capture_output=True, timeout=120)
             outs.append(hashlib.sha256(r.stdout).hexdigest())
@@ -194,6 +194,8 @@ def run(ctx):
                 p = ctx.path(f"c03src_{len(srcs)}.ink")
                 open(p, "w").write(s["ink"])
                 srcs.append(p)
+        import glob
+        srcs = sorted(glob.glob(os.path.join(common.ROOT, "corpus", "c03", "*.ink"))) + srcs
         srcs += common.corpus_ink()[: (60 if quick else 10 ** 6)]
         for path, outs in ex.map(compile_thrice, [(p, ctx.scratch) for p in srcs], chunksize=4):
             ctx.case("compile:" + path, True)
